@@ -8,6 +8,7 @@ package main
 import (
 	"bytes"
 	"fmt"
+	"sort"
 	"strings"
 	"time"
 
@@ -33,6 +34,7 @@ func scenarioSegments() int {
 	}
 	seq, msgsOK, segsWritten := 0, 0, 0
 	repeats := 0
+	orderedStreams := 0
 	// meanwhile, on connections of their own: a client gets an answer written to its connection,
 	// then sends its next two messages with a pause of 6.5 s in the middle of the first one's body
 	// (time that passes between two segments is no part of the framing)
@@ -97,6 +99,10 @@ func scenarioSegments() int {
 			continue
 		}
 		n := 1 + g.R.Intn(8)
+		ordered := g.R.Intn(3) == 0
+		if ordered {
+			n = 4 + g.R.Intn(9)
+		}
 		var msgs []*sip.Msg
 		var ids []string
 		expectN := map[string]int{}
@@ -105,9 +111,18 @@ func scenarioSegments() int {
 		for k := 0; k < n; k++ {
 			seq++
 			id := fmt.Sprintf("f%d", seq)
-			m := wire.StdRequest(id, g.Method(), fmt.Sprintf("sip:svc%d.verif.test", svc), "tcp", w.UAs[path.UA].IP, wire.UDPPort)
+			method := g.Method()
+			if ordered {
+				method = []string{"MESSAGE", "INVITE", "CANCEL", "OPTIONS", "ACK", "INFO", "INVITE", "ACK"}[(k+seq)%8]
+			}
+			m := wire.StdRequest(id, method, fmt.Sprintf("sip:svc%d.verif.test", svc), "tcp", w.UAs[path.UA].IP, wire.UDPPort)
 			if sv.HasDef {
 				wire.SetHeader(m, "To", "<tel:+15550166>")
+			}
+			if ordered {
+				// every message of this stream is routed to one next hop over TCP: they arrive there on
+				// one connection, in the order the proxy took them from the stream
+				wire.InsertBefore(m, "max-forwards", sip.Header{Name: "Route", Value: fmt.Sprintf("<sip:%s:%d;transport=tcp;lr>", w.Hops[0].IP, wire.NextHopPortB)})
 			}
 			budget := 40000
 			for h := g.R.Intn(5); h > 0; h-- {
@@ -312,6 +327,41 @@ func scenarioSegments() int {
 			}
 			msgsOK++
 		}
+		if ordered && !bad {
+			// the order of arrival on the one connection to the next hop is the order in the stream
+			type arr struct {
+				seq  int64
+				conn int
+				k    int
+			}
+			var arrs []arr
+			for k, id := range ids[:n] {
+				for _, o := range w.Net.ForCase(id) {
+					if o.Proto == "tcp" {
+						arrs = append(arrs, arr{o.Seq, o.Conn, k})
+					}
+				}
+			}
+			sort.Slice(arrs, func(a, b int) bool { return arrs[a].seq < arrs[b].seq })
+			var order []int
+			inOrder := true
+			for i, a := range arrs {
+				order = append(order, a.k)
+				if i > 0 && (a.k < arrs[i-1].k || a.conn != arrs[i-1].conn) {
+					inOrder = false
+				}
+			}
+			if !inOrder {
+				var methods []string
+				for _, m := range msgs[:n] {
+					methods = append(methods, strings.SplitN(m.Start, " ", 2)[0])
+				}
+				run.Violation("the messages of a stream were taken from it in another order than they stand in it", map[string]any{"split": kind, "cuts": cuts, "stream_bytes": len(raw), "methods_in_stream_order": methods, "arrival_order_at_the_next_hop": order})
+				bad = true
+			} else {
+				orderedStreams++
+			}
+		}
 		if un := w.Net.ForCase(""); len(un) > 0 {
 			run.Violation("a segmented stream produced an output that is none of its messages", map[string]any{"split": kind, "cuts": cuts, "first": clip(string(un[0].Raw), 800)})
 			w.Net.Forget("")
@@ -350,6 +400,7 @@ func scenarioSegments() int {
 	run.Observe("messages_extracted_across_a_long_pause", pausedOK)
 	run.Observe("streams", nstreams)
 	run.Observe("messages_that_occur_twice_in_their_stream", repeats)
+	run.Observe("streams_whose_order_of_arrival_at_one_next_hop_was_checked", orderedStreams)
 	run.Observe("segments_written", segsWritten)
 	run.Observe("messages_arrived_intact", msgsOK)
 	if msgsOK < nstreams {
